@@ -41,9 +41,29 @@ def leaf():
     )
 
 
+def special():
+    """Sub-expressions whose stored sympy form starts with a negative number without being a product or a negation:
+    exp(-1), (-1)**x, (-2)**y, 2**(-x), ... - the shapes next to which the translator's special cases (subtraction,
+    division, reciprocal, square root) must not fire."""
+    name = st.sampled_from(NAMES).map(lambda n: ["sym", n])
+    negint = st.sampled_from([-1, -1, -2, -3]).map(lambda k: ["int", k])
+    return st.one_of(
+        st.builds(lambda f, k: ["fn", f, k], st.sampled_from(["exp", "exp", "cos", "tan"]), negint),
+        st.builds(lambda k, n: ["**", k, n], negint, name),
+        st.builds(lambda k, n: ["**", ["int", k], ["neg", n]], st.sampled_from([2, 3]), name),
+        st.builds(lambda k, n: ["**", k, ["*", ["int", 2], n]], negint, name),
+        st.builds(lambda n: ["**", ["/", ["int", 1], n], ["rat", 1, 2]], name),
+        st.builds(lambda n, m: ["**", n, ["neg", m]], name, name),
+    )
+
+
 def trees(max_leaves):
     def ext(ch):
         return st.one_of(
+            st.builds(lambda a, b: ["+", a, b], ch, special()),
+            st.builds(lambda a, b: ["*", a, b], ch, special()),
+            st.builds(lambda a, b: ["-", a, b], ch, special()),
+            st.builds(lambda a, b: ["/", a, b], ch, special()),
             st.builds(lambda a, b: ["+", a, b], ch, ch),
             st.builds(lambda a, b: ["-", a, b], ch, ch),
             st.builds(lambda a, b: ["*", a, b], ch, ch),
@@ -189,11 +209,12 @@ def o_unsupported(spec):
 def name_cases(draw, tier):
     stem = st.sampled_from(["beta", "theta", "x", "a", "g_", "b", ""])
     num = st.one_of(st.sampled_from([0, 1, 2, 9, 10, 11, 100, 20, 3]), st.integers(0, 5000))
-    tail = st.sampled_from(["", "_1", "_12", "b3", "_007"])
-    mk = st.builds(lambda s, sep, n, t: s + sep + str(n) + t, stem, st.sampled_from(["_", ""]), num, tail)
+    tail = st.sampled_from(["", "_1", "_12", "b3", "_007", "-3", "-w", ".5"])
+    seps = st.sampled_from(["_", "", "_", "", "-", ".", "__", "+", " "])  # a symbol name is any string
+    mk = st.builds(lambda s, sep, n, t: s + sep + str(n) + t, stem, seps, num, tail)
     names = draw(st.lists(mk, min_size=1, max_size=5, unique=True))
     # a family sharing stem and tail, differing only in the embedded integer
-    s0, sep0, t0 = draw(stem), draw(st.sampled_from(["_", ""])), draw(tail)
+    s0, sep0, t0 = draw(stem), draw(seps), draw(tail)
     for n in draw(st.lists(num, min_size=2, max_size=4, unique=True)):
         nm = s0 + sep0 + str(n) + t0
         if nm not in names:
